@@ -25,7 +25,7 @@
 From Coq Require Import NArith List Bool.
 Import ListNotations.
 From XV Require Import C20.Spec20 C20.Model20 C20.Hyps20 C20.Proofs20a C20.Proofs20b C20.Proofs20c C20.Proofs20d C20.Proofs20e C20.Proofs20f C20.Proofs20g.
-From XV Require Import C20.Examples20.
+From XV Require Import C20.Examples20 C20.Text20 C20.Uri20.
 Local Open Scope N_scope.
 
 (** ---- T20_terminates ---------------------------------------------------------------------------------
@@ -281,3 +281,33 @@ Example T20_root_vanishes_refuted :
   xi_spec_doc fs_f5 (enough_fuel fs_f5 top_f5) uri_f5 top_f5 = inl XE_RootShape /\
   xi_parser fs_f5 true true true true uri_f5 top_f5 = (D_ok [], [E_IncludeFailedResourceError]).
 Proof. vm_compute. split; reflexivity. Qed.
+
+(** ---- XMLUri character tables (regenerated from /repo's XMLUri.cpp on every run) ---------------------------------
+    every character that RFC 2396 allows unescaped in a path segment (letters, digits, - _ . ! ~ * ' ( ) : @ & = + $ ,)
+    is accepted by XMLUri's path scan: hrefs and xml:base values with such names resolve (the XInclude base fix-up
+    puts them through XMLUri) *)
+Theorem T20_uri_pchars_accepted : forall c, In c rfc_pchar_unescaped -> xmluri_accepts_in_path c = true.
+Proof. exact uri_pchars. Qed.
+Print Assumptions T20_uri_pchars_accepted.
+(** mark = RFC mark, reserved and scheme tables contain the RFC sets, ';' '/' are path characters, and nothing outside
+    reserved + mark is a path character *)
+Theorem T20_uri_tables : uri_tables_ok = true.
+Proof. exact uri_tables_ok_true. Qed.
+Print Assumptions T20_uri_tables.
+
+(** ---- T20_text_rounds (bounded instances only) ---------------------------------------------------------------------
+    Text20.text_rounds models the read / transcode loop of doXIncludeTEXTFileDOM on C05's transcoder models.  The
+    general statement "for every well-formed file and every read-size schedule the included text is the decoding of
+    the whole file" is NOT proved.  These are exhaustive sweeps of small instances: buffer of 8 bytes, every
+    schedule of four reads of 1..6 bytes (then full reads), a file with 2-, 3- and 4-byte characters, so that characters
+    are split by a read in every possible way, in several rounds; also UTF-16 (both byte orders) and ISO-8859-1. *)
+Definition t_file8 : list N :=   (* a e-acute b euro c U+1F600 d e-acute euro U+1F600 U+1F600 e f *)
+  [97; 195;169; 98; 226;130;172; 99; 240;159;152;128; 100; 195;169; 226;130;172; 240;159;152;128; 240;159;152;128; 101; 102].
+Example T20_text_rounds_utf8_sweep :
+  forallb (rounds_ok Enc_utf8 8 t_file8) (schedules 6 4) = true /\ length (schedules 6 4) = 1296%nat.
+Proof. vm_compute. split; reflexivity. Qed.
+Example T20_text_rounds_utf16_latin1_sweep :
+  forallb (rounds_ok (Enc_utf16 false) 8 [97;0; 233;0; 172;32; 61;216; 0;222; 98;0]) (schedules 6 3) = true /\
+  forallb (rounds_ok (Enc_utf16 true) 8 [0;97; 0;233; 32;172; 216;61; 222;0; 0;98]) (schedules 6 3) = true /\
+  forallb (rounds_ok Enc_latin1 8 [97; 233; 255; 60; 38; 62; 98; 99; 100; 101]) (schedules 6 3) = true.
+Proof. vm_compute. repeat split; reflexivity. Qed.
